@@ -65,11 +65,12 @@ static void build_api(Geometry& geo,const std::string& path) {
     geo.finalize();
 }
 
-// ints: op(1 files / 2 api) id ndip nsens [old_ordering] | floats: dipoles (pos,moment)*ndip, sensors (xyz)*nsens
+// ints: op(1 files / 2 api) id ndip nsens [old_ordering nobs] | floats: dipoles (pos,moment)*ndip, sensors (xyz)*nsens
 static FWire c06_gain(ll op,Reader& r,FReader& fr) {
-    ll id = r.z(); size_t nd = r.n(), ns = r.n(); const bool old_ordering = !r.done() && r.z()!=0;
+    ll id = r.z(); size_t nd = r.n(), ns = r.n(); const bool old_ordering = !r.done() && r.z()!=0; const size_t nobs = r.done() ? 0 : r.n();
     Matrix dip(nd,6); for (size_t i=0;i<nd;++i) for (size_t k=0;k<6;++k) dip(i,k) = fr.x();
     Matrix pos(ns,3); for (size_t i=0;i<ns;++i) for (size_t k=0;k<3;++k) pos(i,k) = fr.x();
+    Matrix obs(nobs,3); for (size_t i=0;i<nobs;++i) for (size_t k=0;k<3;++k) obs(i,k) = fr.x();
     const std::string d = "c" + std::to_string(id);
     FWire out;
     Geometry geo;
@@ -102,6 +103,19 @@ static FWire c06_gain(ll op,Reader& r,FReader& fr) {
         out.z.push_back((ll)GM.nlin());
         for (size_t j=0;j<GM.ncol();++j) for (size_t i=0;i<GM.nlin();++i) out.f.push_back(GM(i,j));
     }
+    // internal-potential gain at observation points inside the conductive domains (re-referenced to their mean per source)
+    if (nobs>0) {
+        const Matrix S2V = Surf2VolMat(geo,obs);
+        const Matrix D2V = DipSource2InternalPotMat(geo,dip,obs,"");
+        const GainInternalPot GI(HM,DSM,S2V,D2V);
+        out.z.push_back((ll)GI.nlin());
+        for (size_t j=0;j<GI.ncol();++j) {
+            double mean = 0.0;
+            for (size_t i=0;i<GI.nlin();++i) mean += GI(i,j);
+            mean /= (double)GI.nlin();
+            for (size_t i=0;i<GI.nlin();++i) out.f.push_back(GI(i,j)-mean);
+        }
+    } else out.z.push_back(0);
     return out;
 }
 
